@@ -61,6 +61,10 @@ pub enum Edit {
     NearNamePair { line: usize, how: String },
     /// generated project: the block whose header is at `line` appears twice (repeated write)
     BlockDuplicated { line: usize },
+    /// generated project: the definition at `line` gets a twin (new name, its `attr`-th plain
+    /// decimal attribute multiplied by 1.5) and the first reference to the original now names the
+    /// twin: two used definitions that differ in exactly one value
+    TwinUsed { line: usize, attr: usize },
     /// generated project: a copy of the block at `line` pasted as the first child of ANOTHER
     /// parent (a wall into the next space, a window into the next wall, a space into the next
     /// floor): the same name now exists under two parents
@@ -103,6 +107,7 @@ impl Edit {
             Edit::BlockDuplicated { .. } => "disk.block_duplicated",
             Edit::ZerosOn { .. } => "proj.zeros_on",
             Edit::BlockPastedElsewhere { .. } => "proj.block_pasted_elsewhere",
+            Edit::TwinUsed { .. } => "proj.twin_definition_used",
             Edit::DefRenamed { .. } => "disk.def_renamed",
             Edit::DefRemoved { .. } => "disk.def_removed",
             Edit::RefRenamed { .. } => "disk.ref_renamed",
@@ -133,6 +138,7 @@ impl Edit {
             | Edit::BlockDuplicated { line }
             | Edit::ZerosOn { line, .. }
             | Edit::BlockPastedElsewhere { line }
+            | Edit::TwinUsed { line, .. }
             | Edit::DefRenamed { line }
             | Edit::DefRemoved { line }
             | Edit::RefRenamed { line, .. } => Some(*line),
@@ -700,6 +706,55 @@ pub fn apply(text: &str, e: &Edit) -> Option<String> {
             v.extend_from_slice(&lines[*line..=end]);
             v.extend_from_slice(&lines[end + 1..]);
             Some(join(&v))
+        }
+        Edit::TwinUsed { line, attr } => {
+            get(*line)?;
+            let blocks = scan_blocks(&lines);
+            let me = blocks.iter().find(|b| b.start == *line)?;
+            if me.name.is_empty() {
+                return None;
+            }
+            let twin_name = format!("{} gemelo", me.name);
+            if text.contains(&format!("\"{}\"", twin_name)) {
+                return None;
+            }
+            // the attr-th line of the block that holds exactly one plain decimal value
+            let cand: Vec<usize> = (me.start + 1..me.end)
+                .filter(|i| {
+                    let l = lines[*i];
+                    let sp = numeric_spans(l);
+                    sp.len() == 1 && !l.contains('(') && !l.contains('"') && l[sp[0].0..sp[0].1].parse::<f64>().map(|x| x.is_finite() && x > 0.0 && x < 1.0e6).unwrap_or(false)
+                })
+                .collect();
+            let li = *cand.get(*attr)?;
+            // first reference to the original outside its own block (an attribute line, not a header)
+            let q = format!("\"{}\"", me.name);
+            let ref_line = (0..n).find(|i| (*i < me.start || *i > me.end) && header_of(lines[*i]).is_none() && lines[*i].contains(&q) && lines[*i].contains('='))?;
+            let mut out: Vec<String> = vec![];
+            for (i, l) in lines.iter().enumerate() {
+                if i == ref_line {
+                    out.push(l.replacen(&q, &format!("\"{}\"", twin_name), 1));
+                } else {
+                    out.push(l.to_string());
+                }
+                if i == me.end {
+                    for k in me.start..=me.end {
+                        if k == me.start {
+                            out.push(lines[k].replacen(&q, &format!("\"{}\"", twin_name), 1));
+                        } else if k == li {
+                            let sp = numeric_spans(lines[k]);
+                            let x: f64 = lines[k][sp[0].0..sp[0].1].parse().ok()?;
+                            out.push(format!("{}{}{}", &lines[k][..sp[0].0], ((x * 1.5) * 10000.0).round() / 10000.0, &lines[k][sp[0].1..]));
+                        } else if lines[k].trim_start().starts_with("NAME ") && lines[k].contains(&q) {
+                            // HULC repeats the name in a NAME attribute
+                            out.push(lines[k].replacen(&q, &format!("\"{}\"", twin_name), 1));
+                        } else {
+                            out.push(lines[k].to_string());
+                        }
+                    }
+                }
+            }
+            Some(out.join("\n"))
         }
         Edit::BlockPastedElsewhere { line } => {
             get(*line)?;
